@@ -14,8 +14,12 @@
 (* with the logged fields bound: StratStep on the logged rho (C++ comparison      *)
 (* semantics for NaN / infinities) gives take_step and the next radius, Accept    *)
 (* the acceptance decision, FtolTest / the Ptol test the status, LoopContinues    *)
-(* the loop.  Strategy state is kept per strategy object and persists across the  *)
-(* runs that share it.  Clauses (DESIGN.md App. C):                               *)
+(* the loop.  Strategy state is kept per strategy object; minimize resets it on   *)
+(* entry (StratReset), so the radius logged by the FIRST iteration of every run   *)
+(* must be the initial radius of the kind - also on an object that a previous run *)
+(* left with a collapsed radius (the harness keeps re-using such objects; the     *)
+(* radius it reads before the run is only counted: "reset|arrived-dirty").        *)
+(* Clauses (DESIGN.md App. C):                                                    *)
 (*   C09.monotone   callback costs non-increasing up to 64 ulp of max(cost,       *)
 (*                  fscale); acceptance rule; rho and actu_red as defined         *)
 (*   C09.final      callbacks = 1 + accepted; iterate tracking; final arguments   *)
@@ -25,11 +29,13 @@
 (*   C09.status     status selection per iteration; exit / returned status;       *)
 (*                  MaxIters iff no test fired, and then iter = max_iter          *)
 (*   C09.strategy   radius = the model's radius (1e-12 relative), take_step,      *)
-(*                  persistence across runs                                       *)
+(*                  reset on entry (first radius of a run, radius after a run)    *)
 (*   C09.minimiser  Ftol/Ptol result within 1e-3 of the known minimiser           *)
-(* The environment assumptions A1, A3 of the model are validated on every event   *)
-(* and COUNTED (cells "A1|holds", "A1|violated", ...): their failure is not a     *)
-(* violation of the property by itself - C09.monotone decides.                    *)
+(* The environment assumption A2 of the model (actu_red reflects the cost          *)
+(* comparison) is judged on every accepted step (actu_red-definition); A3 is      *)
+(* COUNTED (cells "A3|holds", "A3|violated"): its failure is not a violation of   *)
+(* the property by itself - C09.monotone decides.  Steps accepted through         *)
+(* pred_red <= 0 are counted as null / real steps (information only).             *)
 (* TOOL.* clauses are harness / trace-format errors, never verdicts.              *)
 EXTENDS MinimizeOps, Json, IOUtils, FiniteSets
 
@@ -135,14 +141,20 @@ HBegin(s, e) ==
   LET kindOk == e.strat \in {"ceres", "disney"}
       fresh == e.fresh = 1
       have == e.sid \in DOMAIN s.strats
-      s0 == IF fresh \/ ~have THEN InitStrat(e.strat) ELSE s.strats[e.sid]
+      \* what the object holds when minimize is entered (the harness read its radius: delta0)
+      arrived == IF fresh \/ ~have THEN InitStrat(e.strat) ELSE s.strats[e.sid]
+      \* opts.strat->reset() at the top of minimize
+      s0 == IF IsFin(arrived.delta)
+            THEN LET t == StratReset([kind |-> arrived.kind, delta |-> arrived.delta.v, reduce |-> arrived.reduce])
+                 IN [kind |-> t.kind, delta |-> XFin(t.delta), reduce |-> t.reduce]
+            ELSE InitStrat(e.strat)
       d0 == X(e.delta0)
+      dirty == ~DeltaOk(InitStrat(e.strat).delta, d0)
       bad == (IF s.run.active THEN Tool("begin", "previous run not ended") ELSE <<>>)
              \o (IF ~kindOk THEN Tool("begin", "strategy kind") ELSE <<>>)
              \o (IF ~fresh /\ ~have THEN Tool("begin", "shared strategy never seen") ELSE <<>>)
-             \o (IF ~fresh /\ have /\ s0.kind /= e.strat THEN Tool("begin", "kind of shared strategy changed") ELSE <<>>)
-             \o Chk(DeltaOk(s0.delta, d0), "C09.strategy", IF fresh THEN "initial-radius" ELSE "persisted-radius",
-                    XStr(d0), XStr(s0.delta))
+             \o (IF ~fresh /\ have /\ arrived.kind /= e.strat THEN Tool("begin", "kind of shared strategy changed") ELSE <<>>)
+             \o (IF fresh THEN Chk(~dirty, "C09.strategy", "initial-radius", XStr(d0), XStr(s0.delta)) ELSE <<>>)
       run == [active |-> TRUE, id |-> e.run, b |-> e, maxIter |-> e.max_iter,
               ftol |-> RFromDouble(e.ftol), ptol |-> RFromDouble(e.ptol), fscale |-> RFromDouble(e.fscale),
               sid |-> e.sid, nit |-> 0, fired |-> -1, ncb |-> 0, nacc |-> 0,
@@ -150,7 +162,8 @@ HBegin(s, e) ==
   IN [bad |-> bad,
       cov |-> <<"strategy|" \o e.strat \o (IF fresh THEN "|fresh" ELSE "|shared"), "mode|" \o e.mode, "shape|" \o e.shape,
                 "fam|" \o e.fam, "max_iter|" \o ToString(e.max_iter), "ftol|" \o RToStr(RFromDouble(e.ftol)),
-                "ptol|" \o RToStr(RFromDouble(e.ptol))>>,
+                "ptol|" \o RToStr(RFromDouble(e.ptol))>>
+              \o (IF ~fresh THEN <<IF dirty THEN "reset|arrived-dirty|" \o e.strat ELSE "reset|arrived-initial|" \o e.strat>> ELSE <<>>),
       strats |-> (e.sid :> s0) @@ s.strats, run |-> run]
 
 \* callback
@@ -178,9 +191,13 @@ HIter(s, e) ==
       upd == StepStrat(so, Dl, rho)
       rnZero == IsFin(rn) /\ RSign(rn.v) = 0
       predLe0 == XLe(pred, R0)
-      wantAcc == Accept(rnZero, predLe0, take)
-      reason == IF rnZero THEN "accepted:r_n=0" ELSE IF take THEN "accepted:take_step"
+      actuGe0 == XGe(actu, R0)
+      wantAcc == Accept(rnZero, actuGe0, predLe0, take)
+      reason == IF rnZero THEN "accepted:r_n=0"
+                ELSE IF ~actuGe0 THEN "accepted:actu_red<0"
+                ELSE IF take THEN "accepted:take_step"
                 ELSE IF predLe0 THEN "accepted:pred_red<=0" ELSE "accepted:no-reason"
+      whyNot == IF wantAcc THEN "-" ELSE IF ~actuGe0 /\ (predLe0 \/ take) THEN "rejected:actu_red<0" ELSE "rejected:strategy"
       hasPend == r.pend /= <<>>
       newCost == IF hasPend THEN r.pend[1].cost ELSE XNaN
       \* status selection as the two tests prescribe
@@ -202,7 +219,7 @@ HIter(s, e) ==
         \o Chk(LoopContinues(r.nit, r.maxIter, IF r.fired = -1 THEN "none" ELSE "fired"), "C09.bound",
                IF r.fired = -1 THEN "iteration-beyond-max_iter" ELSE "iteration-after-convergence",
                ToString(r.nit), ToString(r.maxIter))
-        \o Chk(DeltaOk(so.delta, Dl), "C09.strategy", "radius|" \o so.kind, XStr(Dl), XStr(so.delta))
+        \o Chk(DeltaOk(so.delta, Dl), "C09.strategy", (IF r.nit = 0 THEN "radius-at-entry|" ELSE "radius|") \o so.kind, XStr(Dl), XStr(so.delta))
         \o Chk(take = upd.take, "C09.strategy", "take_step|" \o so.kind, XStr(rho), IF upd.take THEN "take" ELSE "reject")
         \o Chk(RhoOk(rho, actu, pred), "C09.monotone", "rho-definition", XStr(rho), XStr(actu) \o "/" \o XStr(pred))
         \o Chk(acc = wantAcc, "C09.monotone", "acceptance-rule", IF acc THEN "accepted" ELSE "rejected", reason)
@@ -215,9 +232,9 @@ HIter(s, e) ==
         \o Chk(statOk, "C09.status", "selection", ToString(stat), wantStat)
         \o Chk(n > 0, "TOOL.iter", "n", ToString(n), "")
       a1 == IF acc /\ hasPend /\ ~rnZero /\ ~take /\ predLe0
-            THEN <<IF NearlySame(r.pend[1].x, r.lastX, Ulps64) THEN "A1|holds" ELSE "A1|violated">> ELSE <<>>
+            THEN <<IF NearlySame(r.pend[1].x, r.lastX, Ulps64) THEN "pred_red<=0-step|null" ELSE "pred_red<=0-step|real">> ELSE <<>>
       a3 == IF rnZero THEN <<IF IsFin(ddx) /\ RSign(ddx.v) = 0 THEN "A3|holds" ELSE "A3|violated">> ELSE <<>>
-      cov == <<"iter|" \o so.kind \o "|" \o (IF acc THEN reason ELSE "rejected"),
+      cov == <<"iter|" \o so.kind \o "|" \o (IF acc THEN reason ELSE whyNot),
                "rho|" \o (IF rho.k /= "fin" THEN rho.k ELSE IF RSign(rho.v) <= 0 THEN "<=0"
                           ELSE IF RLeq(rho.v, C1em3) THEN "(0,1e-3]" ELSE ">1e-3"),
                "pred_red|" \o (IF pred.k /= "fin" THEN pred.k ELSE IF RSign(pred.v) < 0 THEN "<0"
